@@ -5,16 +5,22 @@ W=$1; NAME=$2; shift; shift
 cd /verif
 tools/confirm_seed.sh $W x $NAME | tee /tmp/seed_eval_confirm.log
 grep -q CONFIRMED /tmp/seed_eval_confirm.log && ! grep -q "NOT CONFIRMED" /tmp/seed_eval_confirm.log || exit 1
+# run the checks against a FRESH worktree of /repo's current HEAD with only this patch applied
+R=/tmp/seedrun-$NAME
+git -C /repo worktree remove --force $R 2>/dev/null
+git -C /repo worktree add -q --detach $R HEAD || exit 1
+git -C $R apply /verif/seeded/$NAME/patch.diff || { echo "patch does not apply to current HEAD"; git -C /repo worktree remove --force $R; exit 1; }
 echo "{" > /tmp/verdict.json
 first=1
 for p in "$@"; do
-  VERIF_REPO=$W ./check $p quick > /tmp/seed_eval_$p.log 2>&1; rc=$?
+  VERIF_REPO=$R ./check $p quick > /tmp/seed_eval_$p.log 2>&1; rc=$?
   line=$(grep -m1 "^VIOLATION" /tmp/seed_eval_$p.log | cut -c1-400 | sed 's/"/\\"/g' | sed "s#/verif/evidence/scratch-runs/replays/##")
   [ $first -eq 1 ] || echo "," >> /tmp/verdict.json; first=0
   echo "\"$p\": {\"exit\": $rc, \"first_violation\": \"$line\"}" >> /tmp/verdict.json
   echo "$p rc=$rc $line"
 done
 echo "}" >> /tmp/verdict.json
+git -C /repo worktree remove --force $R
 python3 - "$NAME" <<'P'
 import json,sys,os
 name=sys.argv[1]
